@@ -43,6 +43,9 @@ structure St where
   addrs : List (Nat × Nat) := []  -- tid ↦ address of the run-time type object (B/S-bound type objects: address = tid)
   arena : List Nat := []          -- used slots of the harness arena (mode `arena`)
   nextAddr : Nat := 2000000       -- addresses of malloc'ed type objects: assumed never handed out twice while a memoised pointer to the first dangles
+  bufs : List (Nat × String) := []              -- the caller's character buffers (op Z): their text now
+  nameBuf : List (Nat × Nat) := []              -- provenance of `__Name` cells (XHeap)
+  tripleBuf : List ((Nat × Nat) × Nat) := []    -- provenance of triple name words (XHeap)
 deriving Inhabited
 
 def St.init : St := { h := { w := { slots := slots, theType := 0, types := [] }, names := [] }, kinds := [], rcls := [], syms := [] }
@@ -55,6 +58,22 @@ def addrOf (s : St) (tid : Nat) : Nat := ((s.addrs.find? (fun p => p.1 = tid)).m
 def St.w (s : St) : World := s.h.w
 def St.setW (s : St) (w : World) : St := { s with h := { s.h with w := w } }
 def St.recOf (s : St) (tid : Nat) : Option TypeRec := s.h.w.get (addrOf s tid)
+/-- the pointer-level view of the state (KF-C08-borrowed-name) -/
+def St.x (s : St) : XHeap := { h := s.h, bufs := s.bufs, nameBuf := s.nameBuf, tripleBuf := s.tripleBuf }
+def St.setX (s : St) (x : XHeap) : St := { s with h := x.h, bufs := x.bufs, nameBuf := x.nameBuf, tripleBuf := x.tripleBuf }
+def nBuf : Nat := 64
+/-- a name token: `@<b>` = `$S(the caller's buffer b)`, anything else = a literal -/
+def nameArg (s : St) (tok : String) : Option (NameArg × String) :=
+  if tok.startsWith "@" then
+    let d := String.ofList (tok.toList.drop 1)
+    if d.isEmpty || !d.toList.all Char.isDigit then none else
+    match d.toNat? with
+    | some b => if b ≥ nBuf then none else
+      match s.x.bufText b with
+      | some text => if text.isEmpty then none else some (.buf b, text)
+      | none => none
+    | none => none
+  else some (.lit tok, tok)
 
 def layout : Layout :=
   { cacheNum := CelloGen.Disp.cacheNum, nBuiltins := CelloGen.Disp.nBuiltins, maxInstances := CelloGen.Disp.maxInstances }
@@ -66,7 +85,8 @@ def setAux (s : St) (tid : Nat) (a : Aux) : St := { s with aux := (tid, a) :: s.
 def dropType (s : St) (tid : Nat) (release : Bool := false) : St :=
   let a := addrOf s tid
   { s with h := s.h.delete a, aux := s.aux.filter (fun p => p.1 ≠ tid), addrs := s.addrs.filter (fun p => p.1 ≠ tid),
-           arena := if release then s.arena.filter (fun sl => arenaAddr sl ≠ a) else s.arena }
+           arena := if release then s.arena.filter (fun sl => arenaAddr sl ≠ a) else s.arena,
+           nameBuf := (s.x.forget a).nameBuf, tripleBuf := (s.x.forget a).tripleBuf }
 
 /-- calloc'ed storage of `Type_Alloc` -/
 def zeroMem : List Word := List.replicate (3 * layout.cells) Word.null
@@ -163,6 +183,15 @@ def parseRow (toks : List String) : Option (List (String × List Bool)) := toks.
 def namedRow (s : St) (row : List (String × List Bool)) : Option (List (String × List Bool)) :=
   row.mapM (fun p => (clsOf s p.1).map (fun c => (c.name, p.2)))
 
+/-- class tokens of a row as references to the class OBJECTS (a triple copies the `__Name` word of the object) -/
+def refRow (s : St) (row : List (String × List Bool)) : Option (List CRef) :=
+  row.mapM (fun p =>
+    let tok := p.1
+    if tok.startsWith "b." then some (CRef.lib (dropStr tok 2))
+    else if tok.startsWith "r." then (dropStr tok 2).toNat?.map (fun k => CRef.rt (clsAddr k))
+    else if tok.startsWith "t." then (dropStr tok 2).toNat?.map (fun tid => CRef.rt (addrOf s tid))
+    else none)
+
 def mkEntries (row : List (String × List Bool)) (base : Nat := 0) : List (String × Inst) :=
   ((List.range row.length).zip row).map (fun p => (p.2.1, ⟨base + p.1, p.2.2⟩))
 
@@ -257,11 +286,17 @@ def heapCheck (before : St) (safe : Bool) (after : St) (op : String) : IO Unit :
 
 /-- a construction at an address, on both levels: `st` is what the word-level `Type_New` left; the heap-level `Heap.construct`
     (the function of `C08_world_history`) must install the same record; it also re-reads every alias of the address -/
-def installType (s : St) (op : String) (tid addr : Nat) (name : String) (es : List (String × Inst)) (st : Store) : IO St := do
+def installType (s : St) (op : String) (tid addr : Nat) (nm : NameArg) (refs : List CRef) (name : String) (es : List (String × Inst)) (st : Store) : IO St := do
+  -- the pointer-level construction (`XHeap`): it must amount to the value-level one with the texts read now
+  let xop := XOp.construct addr nm (refs.zip (es.map (·.2)))
+  if s.x.lower xop ≠ some (HOp.construct addr name es) then
+    IO.println s!"O MODEL-INCONSISTENT {op} the pointer-level and the value-level construction differ"
+  let x' := (s.x.step layout xop).1
   let r := s.h.construct layout addr name es
-  if (r.1.w.get addr) ≠ some st.trec then
+  if (r.1.w.get addr) ≠ some st.trec || (x'.h.w.get addr) ≠ some st.trec then
     IO.println s!"O MODEL-INCONSISTENT {op} the heap-level construction and the word-level Type_New differ"
-  let s' := setAux (setKind { s with h := r.1, addrs := (tid, addr) :: s.addrs.filter (fun p => p.1 ≠ tid) } tid 3) tid ⟨st.name, st.size, st.rest⟩
+  let s0 := s.setX x'
+  let s' := setAux (setKind { s0 with addrs := (tid, addr) :: s.addrs.filter (fun p => p.1 ≠ tid) } tid 3) tid ⟨st.name, st.size, st.rest⟩
   heapCheck s (s.h.nameWriteSafe addr name) s' op
   return s'
 
@@ -280,13 +315,33 @@ def main (args : List String) : IO Unit := do
     | ["C", k, nm] =>
       match k.toNat? with
       | some k =>
+        match nameArg s nm with
+        | none => bad
+        | some (na, text) =>
         if k ≥ maxC || s.rcls.any (fun p => p.1 = k) then bad
         else
-          s := { s with rcls := (k, nm) :: s.rcls, h := { s.h with names := (clsAddr k, nm) :: s.h.names } }
+          s := { s with rcls := (k, text) :: s.rcls, h := { s.h with names := (clsAddr k, text) :: s.h.names },
+                        nameBuf := (match na with | .buf b => [(clsAddr k, b)] | .lit _ => []) ++ s.nameBuf }
           IO.println s!"O C {k}"
       | none => bad
     | op :: tidS :: sym :: rest =>
-      if op = "B" || op = "S" then
+      if op = "Z" then
+        -- Z <b> <text> : the caller writes into its own buffer (tidS = b, sym = text)
+        match (if tidS.toList.all Char.isDigit then tidS.toNat? else none) with
+        | some b =>
+          if !rest.isEmpty || b ≥ nBuf || sym.utf8ByteSize ≥ 64 then bad
+          else
+            s := s.setX (s.x.step layout (.scribble b sym)).1
+            let ks := (s.rcls.map (·.1)).mergeSort (· ≤ ·)
+            let tids := ((s.kinds.filter (fun p => p.2 = 3)).map (·.1)).mergeSort (· ≤ ·)
+            let tl := (ks.filter (fun k => s.x.bufOfName (clsAddr k) = some b)).map (fun k => s!"r.{k}") ++
+                      (tids.filter (fun t => s.x.bufOfName (addrOf s t) = some b)).map (fun t => s!"t.{t}")
+            let el := tids.flatMap (fun t =>
+              let n := ((s.recOf t).map (·.entries.length)).getD 0
+              ((List.range n).filter (fun i => s.tripleBuf.any (fun q => q.1 = (addrOf s t, i) && q.2 = b))).map (fun i => s!"{t}:{i}"))
+            IO.println s!"O Z {b} t={",".intercalate tl} e={",".intercalate el}"
+        | none => bad
+      else if op = "B" || op = "S" then
         match tidS.toNat?, parseRow rest with
         | some tid, some row =>
           let known := if op = "B" then CelloGen.Disp.declared.any (fun d => d.1 = sym) else probeNames.contains sym
@@ -301,8 +356,8 @@ def main (args : List String) : IO Unit := do
       else if op = "T" then
         match tidS.toNat?, parseRow rest with
         | some tid, some row =>
-          match namedRow s row with
-          | some named =>
+          match namedRow s row, refRow s row, nameArg s sym with
+          | some named, some refs, some (na, sym) =>
             if tid ≥ maxT || rest.length > maxRow || (kindOf s tid = 3 && row.any (fun p => p.1 = s!"t.{tid}")) then bad
             else
               let es := mkEntries named s.nextId
@@ -314,13 +369,13 @@ def main (args : List String) : IO Unit := do
                   IO.println "O MODEL-INCONSISTENT T the word-level Type_New and the record-level typeNew differ"
                 let addr := s.nextAddr
                 s := { s with nextAddr := s.nextAddr + 1 }
-                s ← installType s "T" tid addr sym es st
+                s ← installType s "T" tid addr na refs sym es st
                 IO.println s!"O T {tid} n={row.length} ok{dump s tid}"
               | (_, .raised e) =>
                 s := setKind s tid 0
                 IO.println s!"O T {tid} n={row.length} {excName e}"
               | _ => IO.println s!"O T {tid} n={row.length} ub"
-          | none => bad
+          | _, _, _ => bad
         | _, _ => bad
       else if op = "N" then
         -- N <tid> <mode> <name> <size> row… : sym = mode
@@ -330,8 +385,8 @@ def main (args : List String) : IO Unit := do
             if sym = "junk" || sym = "arena" then some junkMem else if ["raw", "root", "gc", "alloc"].contains sym then some zeroMem else none
           match sizeS.toNat?, parseRow rowToks, memO with
           | some size, some row, some mem =>
-            match namedRow s row with
-            | some named =>
+            match namedRow s row, refRow s row, nameArg s name with
+            | some named, some refs, some (na, name) =>
               let slot := (List.range nSlot).find? (fun sl => !s.arena.contains sl)
               if tid ≥ maxT || rowToks.length > maxRow || size > 1000000 || (kindOf s tid = 3 && row.any (fun p => p.1 = s!"t.{tid}"))
                   || (sym = "arena" && slot.isNone) then bad
@@ -345,13 +400,13 @@ def main (args : List String) : IO Unit := do
                     IO.println "O MODEL-INCONSISTENT N the constructed record is not the fresh record of the instance list"
                   let addr := if sym = "arena" then arenaAddr (slot.getD 0) else s.nextAddr
                   s := if sym = "arena" then { s with arena := slot.getD 0 :: s.arena } else { s with nextAddr := s.nextAddr + 1 }
-                  s ← installType s "N" tid addr name es st
+                  s ← installType s "N" tid addr na refs name es st
                   IO.println s!"O N {tid} n={row.length} ok{dump s tid} z={tailCount st.rest}"
                 | (_, .raised e) =>
                   s := setKind s tid 0
                   IO.println s!"O N {tid} n={row.length} {excName e}"
                 | _ => IO.println s!"O N {tid} n={row.length} ub"
-            | none => bad
+            | _, _, _ => bad
           | _, _, _ => bad
         | _, _ => bad
       else if op = "W" then
@@ -360,8 +415,8 @@ def main (args : List String) : IO Unit := do
         | some tid, sizeS :: rowToks =>
           match sizeS.toNat?, parseRow rowToks, s.recOf tid, auxOf s tid with
           | some size, some row, some t, some a =>
-            match namedRow s row with
-            | some named =>
+            match namedRow s row, refRow s row, nameArg s sym with
+            | some named, some refs, some (na, sym) =>
               if kindOf s tid ≠ 3 || rowToks.length > maxRow || size > 1000000 || row.any (fun p => p.1 = s!"t.{tid}") then bad
               else
                 let es := mkEntries named s.nextId
@@ -372,7 +427,7 @@ def main (args : List String) : IO Unit := do
                 | .ok _ =>
                   if r.1.trec ≠ mkType CelloGen.Disp.cacheNum t.hdr es || !invb slots r.1.trec || r.1.toRaw.length ≠ st.toRaw.length then
                     IO.println "O MODEL-INCONSISTENT W the re-constructed record is not the fresh record of the new instance list"
-                  s ← installType s "W" tid (addrOf s tid) sym es r.1
+                  s ← installType s "W" tid (addrOf s tid) na refs sym es r.1
                   IO.println s!"O W {tid} n={row.length} ok{dump s tid} z={tailCount r.1.rest}"
                 | .raised e =>
                   if r.1 ≠ st then IO.println "O MODEL-INCONSISTENT W a refused re-construction changed the object"
@@ -380,7 +435,7 @@ def main (args : List String) : IO Unit := do
                     IO.println "O MODEL-INCONSISTENT W the heap-level construction and the word-level Type_New differ"
                   IO.println s!"O W {tid} n={row.length} {excName e} ok{dump s tid} z={tailCount a.rest}"
                 | .ub => IO.println s!"O W {tid} n={row.length} ub"
-            | none => bad
+            | _, _, _ => bad
           | _, _, _, _ => bad
         | _, _ => bad
       else if op = "Y" && rest.isEmpty then
